@@ -12,13 +12,13 @@ RULE = ('split with predicates producing ints, big ints, strings and tuples buil
 ORACLE_DOC = ('on the real boundary traces around every split: per parent key the inner lifetimes are exactly the maximal runs '
               'of equal predicate value (compared with !=), contiguous, in order, all completed in order; nothing for an empty key')
 KNOWN_MATCHERS = {}
-oracle = make_oracle(('split',))
+_oracle = make_oracle(('split',))
 
 PREDS = [['floordiv', 3], ['mod', 2], ['key_of'], ['str_of'], ['big_of'], ['is_even'], ['const', 7], ['id'], ['const', None],
          ['none_if_mod', 2, 0]]
 
 
-def cases(tier, rng):
+def _cases(tier, rng):
     yield {'kind': 'mux', 'term': [['split', ['floordiv', 3], [['to_list']]]], 'items': [0, 1, 2, 3, 4, 5, 6]}
     yield {'kind': 'mux', 'term': [['split', ['big_of'], [['count', True]]]], 'items': [5, 5, 5, 7, 7, 5]}
     yield {'kind': 'mux', 'term': [['split', ['key_of'], [['to_list']]]], 'items': []}
@@ -63,3 +63,14 @@ def tags(case, r):
         if st[0] == 'split':
             t.append('pred=' + st[1][0])
     return t
+
+
+def cases(tier, rng):
+    """every case of `_cases`, and for a fraction of the mux/plain ones the same case run as the SECOND subscription of
+    its pipeline object (after an earlier subscription that completed, failed or was disposed)"""
+    pr = rng.sub('resubscription')
+    return muxprop.with_preludes(_cases(tier, rng), pr)
+
+
+def oracle(case, r):
+    return muxprop.prelude_violation(case, r) or _oracle(case, r)
